@@ -25,7 +25,7 @@ LEVEL_TEXT = ("Decides, for every write of a field of an openapiv3 schema type i
               "A flag may be a constant written under the listed predicate or the stored predicate itself (`nullable = get(\"nullable\") == Some(&Bool(true))`: one `eq`, never negated, constant true). "
               "A conversion handed over as `impl Fn` / a shared closure / a function item is examined where it is applied; a private carrier enum is followed per variant. "
               "The exclusive-bound flags must be decided by the presence of the exclusive keyword (the inclusive one may take part, as in the `match (min, exclusive_min)` spelling that rejects both). "
-              "Not decided: validator-level equivalence on instances, numeric narrowing (`f64 as i64`), per-value enum conversion, which polarity each flag arm writes. Also (R5): schema_extract_description replaces an allOf by its first element only under a test that the list has exactly one element.")
+              "Not decided: validator-level equivalence on instances, numeric narrowing (`f64 as i64`), per-value enum conversion, which polarity each flag arm writes. Also (R5): schema_extract_description replaces an allOf by its first element only under a test that the list has exactly one element. Also (R6): is_empty (which responses are published without content) answers true only after an exhaustive test of the keywords of the schema objects it looked into.")
 LEVEL_NOTE = ("Trusts rustc MIR, the extractor, the slice over-approximation (extra origins can only raise alarms), std/indexmap adapter semantics "
               "(Option::map, Iterator::map/collect, clone_from, BTreeMap::get), and that openapiv3 serialises its fields under the OpenAPI keyword of the same name.")
 EXPLANATION = ("TABLE by field-sensitive flow: each aggregate operand / field assignment / `&mut field` call argument of an openapiv3 ADT in the converter region is sliced backwards "
